@@ -193,7 +193,10 @@ def gen_unit(rng, idx):
     while any(pools):
         p = rng.choice([p for p in pools if p])
         rest.append(p.pop(0))
-    src = STRUCT + '\n'.join(head + fwd + rest + extra) + '\n'
+    # some file-scope initializers stand between the forward declaration and the definition of the function they mention
+    rng.shuffle(extra)
+    ne = rng.randrange(0, len(extra) + 1)
+    src = STRUCT + '\n'.join(head + fwd + extra[:ne] + rest + extra[ne:]) + '\n'
     return src, info
 
 
@@ -322,7 +325,9 @@ def gen_link_case(rng, idx):
                  (k, ' '.join('case %d: return %s%s;' % (i, '' if g[2] else '&', g[0]) for i, g in enumerate(gl))))
         u.append('int (*u%d_fp(void))(int) { return %s; }' % (k, rng.choice(['u0_step', '&u0_step', 'u%d_step' % (nu - 1)])))
         u.append('const char *u%d_str(void) { %s }' % (k, rng.choice(['return "unit %d";' % k, 'static const char *s = "unit %d"; return s;' % k, 'static char b[] = "unit %d"; return b;' % k])))
-        u.append('int u%d_tls(int d) { gtls += d; stls += d * 2; gtls_arr[1] += d; return gtls * 1000 + stls + (int)gtls_arr[1] * 100000; }' % k)
+        u.append('int u%d_tls(int d) { static _Thread_local int ltls = %d; static _Alignas(64) char lal[3]; static _Thread_local _Alignas(32) long ltl2; '
+                 'gtls += d; stls += d * 2; gtls_arr[1] += d; ltls += d; ltl2 += 1; '
+                 'return gtls * 1000 + stls + (int)gtls_arr[1] * 100000 + ltls * 7 + (int)((uintptr_t)lal %% 64) * 3 + (int)((uintptr_t)&ltl2 %% 32) * 5 + (int)ltl2 * 1000000; }' % (k, 3 * (k + 1)))
     # main
     m = ['#include "h.h"', '#include <pthread.h>', 'static _Thread_local int mtls = 77;', '_Thread_local int mtls2;', 'int mcommon;', 'static int mcommon_s;',
          'static void *thr(void *a) { %s mtls++; mtls2 += 3; printf("thread mtls %%d %%d\\n", mtls, mtls2); return 0; }' %
